@@ -25,7 +25,7 @@ def static_cases(jobs):
                 bw.ns["BUDGET"][0] = budget
                 if job.get("argmap"):
                     bw.ns["ARG"].update({k: bw.instance(c) for k, c in job["argmap"].items()})
-                steps.append({"call": call, "obs": ob.call(fs[job.get("f", 1)], call, resolve=job.get("resolve", True))})
+                steps.append({"call": call, "obs": ob.call(fs[job.get("f", 1)], call, resolve=job.get("resolve", True), display=job.get("display", False))})
         except Exception as e:
             out.append({"id": job["id"], "skip": "harness: " + traceback.format_exc()[-400:]})
             bw.cleanup()
